@@ -93,7 +93,35 @@ fn run(rng: &mut Rng, idx: u64, tier: Tier) -> CaseOut {
         fopts.wild_props = vec!["base".to_string()];
     }
     let net = crate::net::gen_net(rng, &nopts);
-    let f = gen_formula(rng, &fopts, &net.names);
+    let mut f = gen_formula(rng, &fopts, &net.names);
+    if with_domains && rng.chance(1, 4) {
+        // a closed sub-formula (one of the two pattern formulae or a small random one) inside a restricted-domain
+        // scope that does not mention the scope's variable, and again outside of it (either order)
+        let closed = |rng: &mut Rng, v: &str| -> F {
+            match rng.below(3) {
+                0 => hyb(Hyb::Bind, v, None, un(Un::AG, un(Un::EF, var(v)))),
+                1 => hyb(Hyb::Bind, v, None, un(Un::AX, var(v))),
+                _ => {
+                    let p = F::Prop(rng.pick(&net.names).clone());
+                    un(*rng.pick(&[Un::EF, Un::AG, Un::EX, Un::AF]), if rng.coin() { un(Un::Not, p) } else { p })
+                }
+            }
+        };
+        let kind_seed = rng.next();
+        let mut r1 = Rng::new(kind_seed);
+        let mut r2 = Rng::new(kind_seed);
+        let p_in = closed(&mut r1, "y");
+        let p_out = closed(&mut r2, if rng.coin() { "y" } else { "z" });
+        let lit = if rng.coin() { var("x") } else { F::Prop(rng.pick(&net.names).clone()) };
+        let mut inner = bin(*rng.pick(&[Bin::And, Bin::Or]), p_in, lit);
+        if rng.coin() {
+            inner = hyb(Hyb::Jump, "x", None, inner);
+        }
+        let scoped = F::Hyb(*rng.pick(&[Hyb::Exists, Hyb::Bind, Hyb::Forall]), "x".to_string(), Some(rng.pick(&["d", "e"]).to_string()), Box::new(inner));
+        let op = *rng.pick(&[Bin::And, Bin::Or, Bin::Imp]);
+        let crafted = if rng.coin() { bin(op, scoped, p_out) } else { bin(op, p_out, scoped) };
+        f = if rng.coin() { crafted } else { bin(*rng.pick(&[Bin::And, Bin::Or]), crafted, f) };
+    }
     let k = f.quant_depth() as u16 + rng.below(2) as u16;
     let world = World::from_net(net, rng, 10, 128);
     let sys = match build(&world, k) {
